@@ -28,7 +28,9 @@ the closed-form piecewise-linear map `pwl` through the pinned ends and the moved
 knot kept `knotMargin`-far from the ends.  The pinned commit handed the same knots (margin
 0) to `polyharmonic_spline`; `Properties/C08.lean` proves that **every** solution of that
 linear system (interpolation rows + the two orthogonality rows) is `pwl`, so both compute
-the same function in exact arithmetic.  Orders ≥ 2 are not modelled (oracle only).
+the same function in exact arithmetic.  Order 3 (`r³`, rational): the exact solution of the
+system in closed form (`cubicCoeffs`, `warpGrid3`); order 2 (`r² log r`) is not rational and is
+not modelled (existence/uniqueness over `ℝ` is proved, the values are oracle-only).
 
 No Mathlib imports here: this file is also used by the driver.
 -/
@@ -243,6 +245,54 @@ def stableAt (eps : Rat) (T len : Nat) (src flow : Rat) (j : Nat) : Rat :=
 /-- `warp_1d_grid(src, flow, len, T, 1)` computed the way the code does (see `stableAt`). -/
 def warpGridStable (eps : Rat) (T len : Nat) (src flow : Rat) : List Rat :=
   (List.range T).map (fun (j : Nat) => stableAt eps T len src flow j)
+
+/-! ## `warp_1d_grid` (order 3): the exact solution of the polyharmonic system -/
+
+/-- `|x|` (the 1-D `cdist`). -/
+def rabs (x : Rat) : Rat := if 0 ≤ x then x else -x
+
+/-- Coefficients of a 1-D polyharmonic spline through three knots: `w` (radial part), `v1 x + v0`. -/
+structure Coeffs where
+  w1 : Rat
+  w2 : Rat
+  w3 : Rat
+  v1 : Rat
+  v0 : Rat
+  deriving Repr
+
+/-- The solution of the system `_solve_interpolation(order = 3)` sets up for three knots
+(`φ(r) = r³`), in closed form: the radial weights are `s · (b, −(a+b), a)` for the gaps
+`a = c2 − c1`, `b = c3 − c2`, with `s` fixed by the second divided difference of the data over
+that of the kernel (`2 D`, `D = 2 a² b² (a+b)`), the affine part by the first and last row.
+`Properties/C08.lean` proves that these coefficients solve the system (`C08_cubic_warp_model`)
+and that the solution is unique (`C08_cubic_warp_exists_unique`). -/
+def cubicCoeffs (k : Knots) : Coeffs :=
+  let a := k.c2 - k.c1
+  let b := k.c3 - k.c2
+  let pa := a * a * a
+  let pb := b * b * b
+  let pab := (a + b) * (a + b) * (a + b)
+  let D := a * b * pab - b * (a + b) * pa - a * (a + b) * pb
+  let s := (b * k.c1 - (a + b) * k.y2 + a * k.c3) / (2 * D)
+  let w1 := s * b
+  let w2 := -(s * (a + b))
+  let w3 := s * a
+  let v1 := ((k.c3 - k.c1) - (w1 * pab + w2 * pb - w2 * pa - w3 * pab)) / (a + b)
+  { w1 := w1, w2 := w2, w3 := w3, v1 := v1, v0 := k.c1 - w2 * pa - w3 * pab - v1 * k.c1 }
+
+/-- `_apply_interpolation` with `φ(r) = r³`. -/
+def cubicEval (k : Knots) (c : Coeffs) (x : Rat) : Rat :=
+  let r1 := rabs (x - k.c1)
+  let r2 := rabs (x - k.c2)
+  let r3 := rabs (x - k.c3)
+  c.w1 * (r1 * r1 * r1) + c.w2 * (r2 * r2 * r2) + c.w3 * (r3 * r3 * r3) + c.v1 * x + c.v0
+
+/-- `warp_1d_grid(src, flow, len, T, 3)` in exact arithmetic (the knots go to the solver
+unchanged: margin 0). -/
+def warpGrid3 (eps : Rat) (T len : Nat) (src flow : Rat) : List Rat :=
+  let k := warpKnots eps 0 T len src flow
+  let c := cubicCoeffs k
+  (List.range T).map (fun (j : Nat) => cubicEval k c (norm T (j : Rat)))
 
 /-- The identity grid used for the dimension that is not warped. -/
 def idGrid (T : Nat) : List Rat := (List.range T).map (fun (j : Nat) => norm T (j : Rat))
